@@ -492,7 +492,7 @@ def wireParts (impl : String) : Option (String × String × String) :=
   match impl.splitOn " " with
   | [a, b, c] =>
     if a.startsWith "raw=" ∧ b.startsWith "res=" ∧ c.startsWith "re=" then
-      some ((a.drop 4).toString, ((b.drop 4).toString).replace "_" " ", (c.drop 3).toString)
+      some ((a.drop 4).toString, ((b.drop 4).toString).replace "@" " ", (c.drop 3).toString)
     else none
   | _ => none
 
